@@ -10,7 +10,7 @@
    stand for the registration order): for two callbacks sharing a known priority the bound is exceeded
    (C05_rr_equal_known_priorities_refuted, replayed on the crate: rr returns 5, the executor needs 7).
    PROVED likewise for the busy-window-aware analysis (bw, Theorem 3): C05_bw_sound, for arrival models whose step
-   enumeration is exact (steps_exact_class: excludes the C11 classes plateau-ended Curve and ArrivalCurvePrefix); for bw
+   enumeration is exact (steps_exact_class: excludes only ArrivalCurvePrefix, the remaining known class of C11); for bw
    the priority order among polled callbacks is irrelevant (C05_bw_sound_any_priority_order).
    For both analyses the development also proves that they compute exactly what their defining inequalities say (every offset, least fixed points, exact
    inverse of the supply-bound function); rr is monotone in workload, assumed bounds and supply. *)
